@@ -69,14 +69,14 @@ func fieldLoadOf(v ssa.Value, field string) (isLoad bool, elemIdx ssa.Value) {
 	switch a := ld.X.(type) {
 	case *ssa.FieldAddr:
 		if fieldName(a.X.Type(), a.Field) == field {
-			if _, isParam := a.X.(*ssa.Parameter); isParam {
+			if _, isParam := resolveVal(a.X).(*ssa.Parameter); isParam {
 				return true, nil
 			}
 		}
 	case *ssa.IndexAddr:
 		if ld2, ok := a.X.(*ssa.UnOp); ok && ld2.Op == token.MUL {
 			if fa, ok := ld2.X.(*ssa.FieldAddr); ok && fieldName(fa.X.Type(), fa.Field) == field {
-				if _, isParam := fa.X.(*ssa.Parameter); isParam {
+				if _, isParam := resolveVal(fa.X).(*ssa.Parameter); isParam {
 					return true, a.Index
 				}
 			}
@@ -104,6 +104,9 @@ func ruleOwnCloseForwards(c *Ctx, r *R) {
 					}
 				}
 			})
+			if !found {
+				found = closedByJoinedGoroutines(c, fn, wf)
+			}
 			r.ok(found, key, fn.Pos(), "Close must close every remaining element of "+wf.field+" (loop over the slice)")
 			continue
 		}
@@ -380,4 +383,84 @@ func ruleOwnFieldDiscipline(c *Ctx, r *R) {
 			}
 		}
 	}
+}
+
+
+// closedByJoinedGoroutines: the elements of slice field wf.field are not closed by Close itself but by goroutines that Close
+// waits for: Close (or a helper it calls) waits on a WaitGroup field of the receiver; a method of the same type defers
+// wg.Done() on that field and defers Close of recv.<field>[i] for its index parameter i; and that method is started with `go`
+// inside a loop with a non-constant index (one goroutine per element).
+func closedByJoinedGoroutines(c *Ctx, closeFn *ssa.Function, wf wrapperField) bool {
+	wgField := ""
+	for _, di := range deepInstrs(closeFn, 2) {
+		call, ok := di.in.(*ssa.Call)
+		if !ok {
+			continue
+		}
+		cal := call.Call.StaticCallee()
+		if cal == nil || cal.Name() != "Wait" || cal.Pkg == nil || cal.Pkg.Pkg.Path() != "sync" || len(call.Call.Args) != 1 {
+			continue
+		}
+		if fa, ok := call.Call.Args[0].(*ssa.FieldAddr); ok {
+			if _, isParam := argOf(fa.X, di.calls).(*ssa.Parameter); isParam {
+				wgField = fieldName(fa.X.Type(), fa.Field)
+			}
+		}
+	}
+	if wgField == "" {
+		return false
+	}
+	for _, m := range c.methodsOf(wf.rel, wf.typ) {
+		if m == closeFn || len(m.Params) < 2 {
+			continue
+		}
+		var idxParam *ssa.Parameter
+		done := false
+		instrs(m, func(_ *ssa.BasicBlock, _ int, in ssa.Instruction) {
+			d, ok := in.(*ssa.Defer)
+			if !ok {
+				return
+			}
+			if d.Call.IsInvoke() && d.Call.Method.Name() == "Close" {
+				if isL, idx := fieldLoadOf(d.Call.Value, wf.field); isL && idx != nil {
+					if p, isP := resolveVal(idx).(*ssa.Parameter); isP && p.Parent() == m {
+						idxParam = p
+					}
+				}
+			}
+			if cal := d.Call.StaticCallee(); cal != nil && cal.Name() == "Done" && cal.Pkg != nil && cal.Pkg.Pkg.Path() == "sync" && len(d.Call.Args) == 1 {
+				if fa, ok := d.Call.Args[0].(*ssa.FieldAddr); ok && resolveVal(fa.X) == ssa.Value(m.Params[0]) && fieldName(fa.X.Type(), fa.Field) == wgField {
+					done = true
+				}
+			}
+		})
+		if idxParam == nil || !done {
+			continue
+		}
+		pi := -1
+		for i, p := range m.Params {
+			if p == idxParam {
+				pi = i
+			}
+		}
+		for _, f := range c.Funcs {
+			started := false
+			instrs(f, func(b *ssa.BasicBlock, _ int, in ssa.Instruction) {
+				g, ok := in.(*ssa.Go)
+				if !ok {
+					return
+				}
+				if cal := staticCallee(&g.Call); cal == nil || origin(cal) != origin(m) || pi >= len(g.Call.Args) {
+					return
+				}
+				if _, isK := g.Call.Args[pi].(*ssa.Const); !isK && reaches(b, b) {
+					started = true
+				}
+			})
+			if started {
+				return true
+			}
+		}
+	}
+	return false
 }
